@@ -1577,8 +1577,12 @@ class Interp:
     def ex_Starred(self, node, env):
         raise Unsupported('starred expression')
 
+    on_yield_value = None
+
     def ex_Yield(self, node, env):
-        raise Unsupported('yield (generators are verified through loop contracts)')
+        if self.on_yield_value is None:
+            raise Unsupported('yield (generators are verified through loop contracts)')
+        return self.on_yield_value(self, self.eval(node.value, env) if node.value is not None else None, env)
 
 
 class _Missing:
